@@ -326,17 +326,91 @@ def stepElem {α : Type} [DecidableEq α] [Elem α] (model : Bool) (ty : String)
               chk (r.cap == grow) s!"capacity want {r.cap}",
               chk (r.vals.length ≤ grow) "capacity below length",
               chk (argAfter == some (arg.map dec)) s!"argument afterwards want {renderList (arg.map dec)}",
-              chk (field obs "alias" == some (if shares then "1" else "0")) s!"aliasing want {shares}"]
+              chk (field obs "alias" == some (if shares then "1" else "0")) s!"aliasing want {shares}",
+              chk (shares || field obs "mut" == some "0") "the argument's backing array (capacity window) was written although append had to allocate"]
           | .err e => firstBad [chk (tok == e.render) s!"result want {e.render}", chk (argAfter == some S) "argument modified by a failing call",
               chk (field obs "mut" == some "0") "a failing call wrote into the argument's backing array (capacity window)"]
           | .panic m => chk (tok == renderPanic m) s!"result want {renderPanic m}"
       else
         match Spec.add S x i with
-        | .ok w => chk (gotList == some w) s!"result want {renderList w}"
+        | .ok w =>
+          -- Add is not documented to work in place: the argument may only differ afterwards where the result itself
+          -- lives in the argument's backing array (spare capacity)
+          let shares := field obs "alias" == some "1"
+          firstBad [chk (gotList == some w) s!"result want {renderList w}",
+            chk (match argAfter with | some a => Spec.addArgOk S a w shares | none => false)
+              s!"Add modified its argument (afterwards {(field obs "arg").getD "?"}, was {renderList S}) although the result does not live in the argument's backing array; Add is not documented to work in place",
+            chk (shares || field obs "mut" == some "0")
+              "Add wrote into its argument's backing array (capacity window) although the result lives elsewhere; Add is not documented to work in place"]
         | .err e => firstBad [chk (tok == e.render) s!"result want {e.render}", chk (argAfter == some S) "argument modified by a failing call",
               chk (field obs "mut" == some "0") "a failing call wrote into the argument's backing array (capacity window)"]
         | .panic _ => some "spec"
     | _, _, _ => some "bad-op"
+  | ["add2", x, i, y, j, extra] =>
+    -- two results derived from one base slice: r1 = Add(base, x, i), then r2 = Add(base, y, j), then r1 is read again
+    match (Elem.parse x : Option α), parseInt? i, (Elem.parse y : Option α), parseInt? j, extra.toNat? with
+    | some x, some i, some y, some j, some extra =>
+      let listField (k : String) : Option (List α) := (field obs k).bind fun p => (parseSlice p).bind id
+      let arg1 := listField "arg1"
+      let r1after := listField "r1after"
+      let r2 := field obs "r2"
+      let failing (e : Err) := firstBad [chk (tok == e.render) s!"result want {e.render}", chk (argAfter == some S) "argument modified by a failing call",
+              chk (field obs "mut" == some "0") "a failing call wrote into the argument's backing array (capacity window)"]
+      if model then
+        let tbl := S ++ [x, y]
+        let enc := encode tbl
+        let dec := decode tbl
+        let cap0 := if src.isNone then 0 else S.length + extra
+        match addAt ⟨S.map enc, cap0⟩ (enc x) i ((fieldNat obs "cap").getD 0) with
+        | .ok (r1, a1, sh1) =>
+          let first := firstBad [chk (gotList == some (r1.vals.map dec)) s!"first result want {renderList (r1.vals.map dec)}",
+            chk (fieldNat obs "cap" == some r1.cap) s!"capacity want {r1.cap}",
+            chk (r1.vals.length ≤ r1.cap) "capacity below length",
+            chk (arg1 == some (a1.map dec)) s!"base after the first call want {renderList (a1.map dec)}",
+            chk (field obs "alias" == some (if sh1 then "1" else "0")) s!"aliasing want {sh1}"]
+          let second :=
+            match addAt ⟨a1, cap0⟩ (enc y) j ((fieldNat obs "cap2").getD 0) with
+            | .ok (r2m, a2, sh2) =>
+              let r1a := if sh1 && sh2 then r2m.vals else r1.vals
+              firstBad [chk (r2 == some ("ok:" ++ renderList (r2m.vals.map dec))) s!"second result want {renderList (r2m.vals.map dec)}",
+                chk (fieldNat obs "cap2" == some r2m.cap) s!"second capacity want {r2m.cap}",
+                chk (r2m.vals.length ≤ r2m.cap) "second capacity below length",
+                chk (field obs "alias2" == some (if sh2 then "1" else "0")) s!"second aliasing want {sh2}",
+                chk (field obs "alias12" == some (if sh1 && sh2 then "1" else "0")) s!"the two results share storage: want {sh1 && sh2}",
+                chk (argAfter == some (a2.map dec)) s!"base afterwards want {renderList (a2.map dec)}",
+                chk (r1after == some (r1a.map dec)) s!"first result read again want {renderList (r1a.map dec)}"]
+            | .err e => firstBad [chk (r2 == some e.render) s!"second result want {e.render}",
+                chk (field obs "nn2" == some "0") "non-nil result of a failing call",
+                chk (argAfter == some (a1.map dec)) "base modified by a failing call",
+                chk (r1after == some (r1.vals.map dec)) "first result modified by a failing call"]
+            | .panic m => chk (r2 == some (renderPanic m)) s!"second result want {renderPanic m}"
+          firstBad [first, second]
+        | .err e => failing e
+        | .panic m => chk (tok == renderPanic m) s!"result want {renderPanic m}"
+      else
+        match Spec.add S x i with
+        | .ok w1 =>
+          let sh1 := field obs "alias" == some "1"
+          -- what the caller may see through its slice after the first call (see `Spec.addArgOk`)
+          let base := if sh1 then w1.take S.length else S
+          let first := firstBad [chk (gotList == some w1) s!"first result want {renderList w1}",
+            chk (match arg1 with | some a => Spec.addArgOk S a w1 sh1 | none => false)
+              s!"Add modified its argument (afterwards {(field obs "arg1").getD "?"}, was {renderList S}) although the result does not live in the argument's backing array; Add is not documented to work in place"]
+          let second :=
+            match Spec.add base y j with
+            | .ok w2 => firstBad [
+                chk (r2 == some ("ok:" ++ renderList w2))
+                  s!"a second Add on the same base slice {renderList base} gave {(r2.getD "?")}, want {renderList w2}: the first Add changed its argument",
+                chk (sh1 || r1after == some w1)
+                  s!"the first result (in storage of its own) reads {(field obs "r1after").getD "?"} after the base slice was used again, want {renderList w1}"]
+            | .err e => firstBad [chk (r2 == some e.render) s!"second result want {e.render}",
+                chk (argAfter == some base) "base modified by a failing call",
+                chk (r1after == some w1) "first result modified by a failing call"]
+            | .panic _ => some "spec"
+          firstBad [first, second]
+        | .err e => failing e
+        | .panic _ => some "spec"
+    | _, _, _, _, _ => some "bad-op"
   | ["delete", i] =>
     match parseInt? i with
     | some i =>
